@@ -219,6 +219,12 @@ PROPS['C19']['harnesses'] += [
   H('cancellable_sync_complete_vs_stop', 'C19_cancellable.cpp', ['h_start_then_complete', 'h_stop'], 40, opts=dict(params=[0, 1]), desc='cancellable: the raw operation completes synchronously inside start() while a stop request arrives'),
   H('cancellable_start_vs_complete', 'C19_cancellable.cpp', ['h_start', 'h_complete_when_started'], 50, opts=dict(params=[2, 0]), desc='cancellable: stop requested before start; start() races the natural completion from another thread'),
   H('cancellable_start_vs_complete_vs_stop', 'C19_cancellable.cpp', ['h_start', 'h_complete_when_started', 'h_stop'], 44, tier='thorough', timeout=3000, opts=dict(params=[0, 0]), desc='cancellable: start(), natural completion and stop request on three threads')]
+PROPS['C19']['harnesses'] += [
+  H('sor_start_vs_ext_stop', 'C19_stop_on_request.cpp', ['h_start', 'h_stop_x'], 30, opts=dict(params=[0]), desc='stop_on_request: start() races a stop request on the external source'),
+  H('sor_start_vs_rcv_stop', 'C19_stop_on_request.cpp', ['h_start', 'h_stop_r'], 30, opts=dict(params=[0]), desc='stop_on_request: start() races a stop request on the receiver\'s source'),
+  H('sor_two_stops', 'C19_stop_on_request.cpp', ['h_stop_x', 'h_stop_r'], 30, setup='h_setup_started', opts=dict(params=[0]), desc='stop_on_request: started; external and receiver stop requests race'),
+  H('sor_prestopped_ext_vs_rcv_stop', 'C19_stop_on_request.cpp', ['h_start', 'h_stop_r'], 30, opts=dict(params=[1]), desc='stop_on_request: external source already stopped; start() races a receiver stop request')]
+PROPS['C04']['harnesses'] += [h for h in PROPS['C19']['harnesses'] if h['name'].startswith('sor_')]
 # cross-registration: harnesses whose assertions also decide clauses of other properties
 PROPS['C04']['harnesses'] += [h for h in PROPS['C01']['harnesses'] if h['name'] in ('wa_race_min', 'sw_race_min')]
 PROPS['C05']['harnesses'] += [h for h in PROPS['C04']['harnesses'] if h['name'] == 'wa_inline_cancel'] + \
